@@ -81,6 +81,20 @@ class Walk(object):
                 return p.flag
             if e.id == self.idx:
                 return not self.a["index0"]
+            defs = [a for a in ast.walk(self.fn) if isinstance(a, ast.Assign) and len(a.targets) == 1
+                    and isinstance(a.targets[0], ast.Name) and a.targets[0].id == e.id]
+            if len(defs) == 1 and defs[0].lineno < self.anchor_line and any(
+                    isinstance(n, ast.Attribute) and n.attr in ("size", "_keys", "_data", "_next", "_firstbucket")
+                    for n in ast.walk(defs[0].value)):
+                return None          # computed before the delete from state the delete changes
+            defs = [a.value for a in defs]
+            if len(defs) == 1 and getattr(self, "_depth", 0) < 4:
+                # a local that names a condition (`is_first = index == 0`)
+                self._depth = getattr(self, "_depth", 0) + 1
+                try:
+                    return self.cond(defs[0], p)
+                finally:
+                    self._depth -= 1
             return None
         if isinstance(e, ast.Attribute) and isinstance(e.value, ast.Name) and e.value.id == self.child and e.attr == "size":
             return not self.a["empty"]
@@ -259,6 +273,7 @@ def table():
             continue
         w = Walk(fn, dict(removed=removed, index0=index0, empty=empty, leaf=leaf))
         w.flagvar, w.idx, w.child = flagvar, idx, child
+        w.anchor_line = fn.body[at].lineno
         for a in ast.walk(fn):
             if isinstance(a, ast.Assign) and len(a.targets) == 1 and isinstance(a.targets[0], ast.Name) \
                     and pyfront.unparse(a.value) == "self._data":
